@@ -44,7 +44,7 @@ func allCombos() []combo {
 }
 
 func (c combo) cfg(r *core.Rng) *ev.Cfg {
-	cfg := &ev.Cfg{Checksum: c.Checksum, RowsV2: c.RowsV2, TableID4: c.ID4, ServerID: 1 + uint32(r.Intn(1000))}
+	cfg := &ev.Cfg{Checksum: c.Checksum, RowsV2: c.RowsV2, TableID4: c.ID4, ServerID: 1 + uint32(r.Intn(1000)), PadOnes: r.Bool()}
 	switch r.Intn(3) {
 	case 0:
 		cfg.ServerVersion, cfg.NumTypes, cfg.GTIDPostHeader = "5.6.51-log", 35, 25
